@@ -54,3 +54,55 @@ func Harness_C19_SequenceDiagramGroups() {
 		nd.Assert("sequence:byte-identical", got == want)
 	}
 }
+
+// participants of different kinds (external system, database, ordinary application, human):
+// the header lists them in one order whatever order the symbol table is iterated in
+func Harness_C19_SequenceDiagramParticipantKinds() {
+	call := func(app string) *sysl.Statement {
+		return &sysl.Statement{Stmt: &sysl.Statement_Call{Call: &sysl.Call{Target: &sysl.AppName{Part: []string{app}}, Endpoint: "e"}}}
+	}
+	pat := func(p string) map[string]*sysl.Attribute {
+		if p == "" {
+			return nil
+		}
+		return map[string]*sysl.Attribute{"patterns": {Attribute: &sysl.Attribute_A{A: &sysl.Attribute_Array{
+			Elt: []*sysl.Attribute{{Attribute: &sysl.Attribute_S{S: p}}}}}}}
+	}
+	kinds := []string{"", "external", "db", "cron", "human", "ui"}
+	k := []string{
+		kinds[nd.IntRange("kind-of-Partner", 0, len(kinds)-1)],
+		kinds[nd.IntRange("kind-of-Gateway", 0, len(kinds)-1)],
+		kinds[nd.IntRange("kind-of-Store", 0, len(kinds)-1)],
+	}
+	module := func() *sysl.Module {
+		mk := func(name, kind string, stmts ...*sysl.Statement) *sysl.Application {
+			return &sysl.Application{Name: &sysl.AppName{Part: []string{name}}, Attrs: pat(kind),
+				Endpoints: map[string]*sysl.Endpoint{"e": {Name: "e", Stmt: stmts}}}
+		}
+		act := &sysl.Statement{Stmt: &sysl.Statement_Action{Action: &sysl.Action{Action: "x"}}}
+		return &sysl.Module{Apps: map[string]*sysl.Application{
+			"Partner": mk("Partner", k[0], call("Gateway")),
+			"Gateway": mk("Gateway", k[1], call("Store"), act),
+			"Store":   mk("Store", k[2], act),
+		}}
+	}
+	run := func() string {
+		out, err := GenerateSequenceDiag(module(), &SequenceDiagParam{
+			AppLabeler: c19SeqLabeler{}, EndpointLabeler: c19SeqLabeler{}, Endpoints: []string{"Partner <- e"}, Title: "t",
+		}, nil)
+		if err != nil {
+			return "error: " + err.Error()
+		}
+		return out
+	}
+	want := run()
+	rounds := 1
+	if nd.Replaying() {
+		rounds = 64
+	}
+	for r := 0; r < rounds; r++ {
+		got := ""
+		nd.AnyMapOrder(func() { got = run() })
+		nd.Assert("sequence:participants-in-one-order", got == want)
+	}
+}
